@@ -137,6 +137,7 @@ type BedConfig struct {
 	ReconnectPolicy proxycore.ReconnectPolicy
 	Logger          *zap.Logger
 	BackendMaxVersion primitive.ProtocolVersion
+	Unlisted        []int // hosts that exist (listen) but are not in the peers table when the proxy starts
 }
 
 type Bed struct {
@@ -190,6 +191,9 @@ func NewBed(cfg BedConfig) (*Bed, error) {
 			return nil, err
 		}
 		b.ownCluster = true
+		for _, i := range cfg.Unlisted {
+			b.Cluster.SetListed(i, false)
+		}
 	}
 	ctx, cancel := context.WithCancel(context.Background())
 	b.cancel = cancel
